@@ -25,6 +25,7 @@ import (
 	"sync"
 	"time"
 
+	"github.com/cnotch/ipchub/utils/vhook"
 	"github.com/gorilla/websocket"
 )
 
@@ -149,6 +150,7 @@ func (c *websocketTransport) Read(b []byte) (n int, err error) {
 // out and return a Error with Timeout() == true after a fixed time limit by
 // using SetDeadline and SetWriteDeadline on the websocket.
 func (c *websocketTransport) Write(b []byte) (n int, err error) {
+	vhook.At("ws.write", b)
 	// Serialize write to avoid concurrent write
 	c.Lock()
 	defer c.Unlock()
@@ -225,6 +227,7 @@ type websocketTextTransport struct {
 // out and return a Error with Timeout() == true after a fixed time limit by
 // using SetDeadline and SetWriteDeadline on the websocket.
 func (c *websocketTextTransport) Write(b []byte) (n int, err error) {
+	vhook.At("ws.write", b)
 	// Serialize write to avoid concurrent write
 	c.Lock()
 	defer c.Unlock()
